@@ -94,6 +94,8 @@ def _case(draw):
                 a = 'scalar'        # a list / mapping merged onto a function node updates its arguments (C13), it does not replace it
             if k == 'lst' and a == 'delmap':
                 a = 'list'
+            if k == 'box' and a == 'list':
+                a = 'delmap'         # (a list here followed by a later mapping would be a mapping-onto-list MergeError: C02 territory)
             if k in referenced and k == 'box':
                 continue            # consumers reach into it: any replacement would leave dangling references
             if k in referenced and k == 'lst':
